@@ -361,6 +361,15 @@ func C03(c *core.Ctx) {
 	c.RuleText = "instances: every Nat method call site (receiver provenance), the 7 primitive functions, every switch statement over integer thresholds in every generated file. Non-trivial = a table with ≥1 row or a receiver with ≥1 provenance leaf."
 	p := c.P
 	defer c03SizedAsWritten(c)
+	// ---- R3.22 (shared with C12 R12.3 / R12.7) "any combination of optional fields, with
+	// parameters supplied as any number of buffers": whether an Interest carries parameters
+	// is decided by the presence of the element (the decoded wire != nil), not by its
+	// length — an empty ApplicationParameters element decodes to an empty, non-nil wire from
+	// one reader and to a zero-length one from the other, and the digest check must treat
+	// both alike
+	defer c.Import(C12, "R3.22", "checkInterest decides 'carries parameters' by something else than the presence of the decoded element: an Interest with empty parameters decodes from a contiguous buffer and is refused (or its digest left unchecked) from a segmented one", 2, func(k string) bool {
+		return strings.HasPrefix(k, "R12.3:params-digest-gate:") || strings.HasPrefix(k, "R12.7:digest-component-needs-parameters")
+	})
 	defer c03OneOctetThreshold(c)
 	defer c03NameReserveNotCapped(c)
 	defer c03ReaderBase(c)
